@@ -1,5 +1,217 @@
 package main
 
-import "verifh/kit/vio"
+// C40: P-VALIDATE recorder for spec/TraceVbftSelect.tla.
+//
+// Chain configs are built by the real vconfig.GenesisChainConfig from pools of N = 4..10 generated validators;
+// for every config the driver logs
+//   cfg    the config (N, C, position table, pool indices)
+//   build  real buildParticipantConfig on a previous block with random proposer / block root / vrf value:
+//          the selection seed (real getParticipantSelectionSeed), the returned selection or the error;
+//          the call is repeated on a deep copy of the config by a server with another index ("same")
+//   peers  real calcParticipantPeers on chosen seeds (all-zero, all-0xFF, single bit, sparse, random) for the
+//          proposer range and, with the proposers it yields (and with adversarial proposer lists), the endorser and
+//          committer ranges; repeated ("same")
+//   part   real calcParticipant on slots incl. the boundaries 511 / 512
 
-func selectRecord(draws int) { vio.Fatal("not built yet") }
+import (
+	"encoding/json"
+	"reflect"
+
+	"github.com/polynetwork/poly/common"
+	"github.com/polynetwork/poly/common/config"
+	"github.com/polynetwork/poly/common/log"
+	"github.com/polynetwork/poly/consensus/vbft"
+	vconfig "github.com/polynetwork/poly/consensus/vbft/config"
+	"github.com/polynetwork/poly/core/types"
+
+	"verifh/kit/vio"
+)
+
+func u32s(a []uint32) []int64 {
+	r := make([]int64, len(a))
+	for i, v := range a {
+		r[i] = peerNum(v)
+	}
+	return r
+}
+
+func peerNum(v uint32) int64 {
+	if v == ^uint32(0) {
+		return -1
+	}
+	return int64(v)
+}
+
+func vrfInts(v vconfig.VRFValue) []int {
+	r := make([]int, len(v))
+	for i, b := range v {
+		r[i] = int(b)
+	}
+	return r
+}
+
+func copyChain(c *vconfig.ChainConfig) *vconfig.ChainConfig {
+	b, err := json.Marshal(c)
+	if err != nil {
+		vio.Fatal("marshal chain config: %v", err)
+	}
+	n := &vconfig.ChainConfig{}
+	if err := json.Unmarshal(b, n); err != nil {
+		vio.Fatal("unmarshal chain config: %v", err)
+	}
+	return n
+}
+
+func specialSeeds(r *vio.RNG, n int) []vconfig.VRFValue {
+	var res []vconfig.VRFValue
+	var z, f vconfig.VRFValue
+	for i := range f {
+		f[i] = 0xFF
+	}
+	res = append(res, z, f)
+	for k := 0; k < n; k++ {
+		var v vconfig.VRFValue
+		switch k % 4 {
+		case 0: // single bit
+			bit := r.Intn(512)
+			v[bit/8] = 1 << uint(bit%8)
+		case 1: // sparse: a few non-zero bytes
+			for j := 0; j < 1+r.Intn(4); j++ {
+				v[r.Intn(64)] = byte(r.U64())
+			}
+		case 2: // one repeated byte
+			b := byte(r.U64())
+			for j := range v {
+				v[j] = b
+			}
+		default:
+			copy(v[:], r.Bytes(64))
+		}
+		res = append(res, v)
+	}
+	return res
+}
+
+func selectRecord(draws int) {
+	log.InitLog(log.FatalLog+1, log.Stdout)
+	rng := vio.NewRNG(vio.Seed() ^ 0xC40)
+	cfgID := 0
+	perCfg := draws / 14
+	if perCfg < 4 {
+		perCfg = 4
+	}
+	for n := 4; n <= 10; n++ {
+		for _, height := range []uint32{0, uint32(1 + rng.Intn(1000000))} {
+			cfgID++
+			var peers []*config.VBFTPeerInfo
+			idx := rng.Perm(n + 3) // pool indices are not contiguous
+			for i := 0; i < n; i++ {
+				a := detAccount(rng)
+				peers = append(peers, &config.VBFTPeerInfo{Index: uint32(idx[i] + 1), PeerPubkey: vconfig.PubkeyID(a.PublicKey), Address: a.Address.ToBase58()})
+			}
+			conf := &config.VBFTConfig{BlockMsgDelay: 10000, HashMsgDelay: 10000, PeerHandshakeTimeout: 10, MaxBlockChangeView: 1000, Peers: peers}
+			var chain *vconfig.ChainConfig
+			var err error
+			if pn := vio.Safe(func() { chain, err = vconfig.GenesisChainConfig(conf, peers, height) }); pn != "" || err != nil {
+				vio.Emit(map[string]interface{}{"op": "cfgfail", "id": cfgID, "n": n, "panic": pn, "err": errStr(err)})
+				continue
+			}
+			chain2, _ := vconfig.GenesisChainConfig(conf, peers, height)
+			pool := make([]int64, 0, n)
+			for _, p := range peers {
+				pool = append(pool, int64(p.Index))
+			}
+			vio.Emit(map[string]interface{}{"op": "cfg", "id": cfgID, "n": int(chain.N), "c": int(chain.C), "tbl": u32s(chain.PosTable),
+				"pool": pool, "same": reflect.DeepEqual(chain.PosTable, chain2.PosTable) && chain.N == chain2.N && chain.C == chain2.C})
+
+			// real buildParticipantConfig on random previous blocks
+			for d := 0; d < perCfg; d++ {
+				info := &vconfig.VbftBlockInfo{Proposer: peers[rng.Intn(n)].Index, VrfValue: rng.Bytes(64), VrfProof: rng.Bytes(8), LastConfigBlockNum: 0}
+				payload, _ := json.Marshal(info)
+				var root common.Uint256
+				copy(root[:], rng.Bytes(32))
+				prev := &types.Block{Header: &types.Header{Height: uint32(rng.Intn(1 << 20)), BlockRoot: root, ConsensusPayload: payload}}
+				blkNum := prev.Header.Height + 1
+				seed, err := vbft.VerifSelectionSeed(prev)
+				if err != nil {
+					vio.Fatal("seed: %v", err)
+				}
+				var v1, v2 vconfig.VRFValue
+				var p1, e1, c1, p2, e2, c2 []uint32
+				var er1, er2 error
+				pn := vio.Safe(func() {
+					v1, p1, e1, c1, er1 = vbft.VerifBuildParticipantConfig(peers[0].Index, blkNum, prev, chain)
+					v2, p2, e2, c2, er2 = vbft.VerifBuildParticipantConfig(peers[n-1].Index, blkNum, prev, copyChain(chain))
+				})
+				if pn != "" {
+					vio.Emit(map[string]interface{}{"op": "panic", "id": cfgID, "what": "build", "vrf": vrfInts(seed), "panic": pn})
+					continue
+				}
+				same := (er1 == nil) == (er2 == nil) && eqU(p1, p2) && eqU(e1, e2) && eqU(c1, c2) && v1 == v2 && (er1 != nil || v1 == seed)
+				vio.Emit(map[string]interface{}{"op": "build", "id": cfgID, "vrf": vrfInts(seed), "err": er1 != nil, "p": u32s(p1), "e": u32s(e1), "c": u32s(c1), "same": same})
+			}
+
+			// real calcParticipantPeers / calcParticipant on chosen seeds
+			for si, seed := range specialSeeds(rng, perCfg) {
+				for _, k := range []uint32{0, 7, 8, uint32(rng.Intn(512)), 503, 504, 511, 512, 513, 100000} {
+					var id uint32
+					if pn := vio.Safe(func() { id = vbft.VerifCalcParticipant(seed, chain.PosTable, k) }); pn != "" {
+						vio.Emit(map[string]interface{}{"op": "panic", "id": cfgID, "what": "part", "vrf": vrfInts(seed), "k": k, "panic": pn})
+						continue
+					}
+					vio.Emit(map[string]interface{}{"op": "part", "id": cfgID, "vrf": vrfInts(seed), "k": int64(k), "out": peerNum(id)})
+				}
+				call := func(kind string, props []uint32) []uint32 {
+					start, end := 0, vconfig.MAX_PROPOSER_COUNT
+					if kind == "E" {
+						start, end = vconfig.MAX_PROPOSER_COUNT, vconfig.MAX_PROPOSER_COUNT+vconfig.MAX_ENDORSER_COUNT
+					} else if kind == "C" {
+						start = vconfig.MAX_PROPOSER_COUNT + vconfig.MAX_ENDORSER_COUNT
+						end = start + vconfig.MAX_COMMITTER_COUNT
+					}
+					var o1, o2 []uint32
+					if pn := vio.Safe(func() {
+						o1 = vbft.VerifCalcParticipantPeersWith(seed, chain, props, start, end)
+						o2 = vbft.VerifCalcParticipantPeersWith(seed, copyChain(chain), append([]uint32{}, props...), start, end)
+					}); pn != "" {
+						vio.Emit(map[string]interface{}{"op": "panic", "id": cfgID, "what": "peers", "kind": kind, "vrf": vrfInts(seed), "props": u32s(props), "panic": pn})
+						return nil
+					}
+					vio.Emit(map[string]interface{}{"op": "peers", "id": cfgID, "kind": kind, "vrf": vrfInts(seed), "props": u32s(props), "out": u32s(o1), "same": eqU(o1, o2)})
+					return o1
+				}
+				ps := call("P", nil)
+				var lists [][]uint32
+				if uint32(len(ps)) >= chain.C+1 {
+					lists = append(lists, ps[:chain.C+1])
+				}
+				if si%3 == 0 { // adversarial proposer lists: repeated entries, fewer than C entries
+					lists = append(lists, []uint32{chain.PosTable[0], chain.PosTable[0], chain.PosTable[1]}, []uint32{chain.PosTable[2]})
+				}
+				for _, pl := range lists {
+					call("E", pl)
+					call("C", pl)
+				}
+			}
+		}
+	}
+}
+
+func errStr(e error) string {
+	if e == nil {
+		return ""
+	}
+	return e.Error()
+}
+
+func eqU(a, b []uint32) bool {
+	if len(a) != len(b) {
+		return false
+	}
+	for i := range a {
+		if a[i] != b[i] {
+			return false
+		}
+	}
+	return true
+}
